@@ -693,12 +693,18 @@ func (p *Parser) parseFunctionParameters() ([]ast.Node, bool) {
 		return identifiers, false
 	}
 	p.nextToken()
+	if !p.okParameter() {
+		return nil, false
+	}
 	ident := &ast.Identifier{}
 	ident.Token = p.curToken
 	identifiers = append(identifiers, ident)
 	for p.peekTokenIs(token.COMMA) {
 		p.nextToken()
 		p.nextToken()
+		if !p.okParameter() {
+			return nil, false
+		}
 		ident := &ast.Identifier{}
 		ident.Token = p.curToken
 		identifiers = append(identifiers, ident)
@@ -707,6 +713,20 @@ func (p *Parser) parseFunctionParameters() ([]ast.Node, bool) {
 		return nil, false
 	}
 	return identifiers, (p.prevToken.Type() == token.DOTDOT)
+}
+
+// Function and macro parameters must be identifiers (or the .. of variadic functions).
+func (p *Parser) okParameter() bool {
+	if p.curTokenIs(token.IDENT) || p.curTokenIs(token.DOTDOT) {
+		return true
+	}
+	if p.curTokenIs(token.EOL) {
+		p.continuationNeeded = true
+		return false
+	}
+	errLine, lineNum := p.ErrorLine(true)
+	p.addError(fmt.Sprintf("%d: function parameters must be identifiers, not `%s`:\n%s", lineNum, p.curToken.Literal(), errLine))
+	return false
 }
 
 func (p *Parser) parseCallExpression(function ast.Node) ast.Node {
